@@ -231,6 +231,52 @@ class Gen:
             self.emit('use %d %d %s' % (k, hk, use))
         self.emit('%s %d %d%s' % (rel, k, hk, self.rel_fields()))
         self.emit('bforget %d:1000' % k)
+    # ---- request fields that the blocks above leave at one value (audit 6)
+    RW_FLAGS = [16384, 1024, 2048, 262144, 512, 16384 | 1024, 1, 2]     # O_DIRECT, O_APPEND, O_NONBLOCK, O_NOATIME, O_TRUNC, both, O_WRONLY, O_RDWR
+    def fields_block(self, j):
+        """the flags word of READ / WRITE varied independently of what the handle was opened with, on every kind of handle.
+        fcntl(F_SETFL, O_DIRECT) fails on a directory descriptor (EINVAL): a WRITE that is refused at that point must leave
+        the handle's descriptor alone.  (READ is given only flags whose F_SETFL cannot fail: see notes/C15.md.)"""
+        hkind = self.HKINDS[j % 3]; fl = self.RW_FLAGS[j % len(self.RW_FLAGS)]
+        k = self.nreg; self.nreg += 1; self.reg[k] = None
+        hk = self.nh; self.nh += 1
+        self.emit('lookup %d 0 %s' % (k, 'f' if hkind == 'open-file' else 'd1'))
+        self.emit('%s %d %d' % ('opendir' if hkind == 'opendir' else 'open', hk, k))
+        if hkind != 'open-file': self.emit('readdir %d %d 4096 0 100' % (k, hk))
+        self.emit('use %d %d write flags%d' % (k, hk, fl))
+        self.emit('use %d %d write flags%d' % (k, hk, 16384))
+        rfl = fl if (hkind == 'open-file' or not fl & 16384) else 1024
+        self.emit('use %d %d read flags%d' % (k, hk, rfl))
+        self.emit('use %d %d lseek' % (k, hk))
+        self.emit('%s %d %d' % ('releasedir' if hkind == 'opendir' else 'release', k, hk))
+        self.emit('bforget %d:1000' % k)
+    def setattr_block(self, j):
+        """SETATTR with a non-empty valid mask (SIZE: truncation goes through the handle, or -- without a handle, and in
+        no_open mode -- through a descriptor opened for the request; times) and GETATTR / SETATTR without a handle"""
+        k = self.nreg; self.nreg += 1; self.reg[k] = None
+        hk = self.nh; self.nh += 1
+        self.emit('lookup %d 0 f' % k)
+        self.emit('open %d %d' % (hk, k))
+        self.emit('use %d %d setattr valid8 size%d' % (k, hk, 6 + j % 4))
+        self.emit('use %d %d setattr nohandle valid8 size%d' % (k, hk, 5 + j % 3))
+        self.emit('use %d %d setattr nohandle valid%d' % (k, hk, 16 | 32 | 128 | 256))
+        self.emit('use %d %d getattr nohandle' % (k, hk))
+        self.emit('release %d %d' % (k, hk))
+        self.emit('bforget %d:1000' % k)
+    def zero_block(self, j):
+        """the handle number 0 (never issued: numbering starts at 1; it is what a client without handles sends) presented
+        with a live inode to every request that takes a handle, and to both release opcodes"""
+        k = self.nreg; self.nreg += 1; self.reg[k] = None
+        hk = self.nh; self.nh += 1
+        nm, op = ('d1', 'opendir') if j % 2 else ('f', 'open')
+        self.emit('lookup %d 0 %s' % (k, nm))
+        self.emit('%s %d %d' % (op, hk, k))
+        for use in self.HUSES:
+            if use in ('readdir', 'readdirplus'): self.emit('%s %d =0 4096 0 100' % (use, k))
+            else: self.emit('use %d =0 %s' % (k, use))
+        self.emit('release %d =0' % k); self.emit('releasedir %d =0' % k)
+        self.emit('%s %d %d' % ('releasedir' if j % 2 else 'release', k, hk))
+        self.emit('bforget %d:1000' % k)
     def batch_block(self, pos):
         """two references, then one BATCH_FORGET naming them and the root at place `pos` (0 first, 1 middle, 2 last)"""
         a = self.nreg; b = self.nreg + 1; self.nreg += 2; self.reg[a] = None; self.reg[b] = None
@@ -267,6 +313,9 @@ class Gen:
             self.handle_block('open-dir', 'readdir', 'release' if self.block_base % 2 else 'releasedir')
             self.handle_block('opendir', 'read' if self.block_base % 4 < 2 else 'write', 'releasedir')
             self.handle_blocks(self.block_base, self.blocks)
+            self.fields_block(self.block_base // 8)
+            self.setattr_block(self.block_base // 8)
+            self.zero_block(self.block_base // 8)
             n += len(self.lines)
         sp_at = self.r.randrange(n) if special else -1
         while len(self.lines) < n:
@@ -343,6 +392,9 @@ def inode_op(rec, fx, root_host):
     if o in ('readdir', 'readdirplus'):
         ents = '[' + '; '.join('(%s, %s)' % (coq_target(e['host'], fx), coq_bool(e['del'])) for e in rec['ents']) + ']'
         oe = '(OEnts [' + '; '.join('(%d, %s)' % (e['ino'], coq_bool(e['del'])) for e in rec['ents']) + '])'
+        # an error before anything was passed on = "nothing collected" (the model stops with []); an error AFTER entries
+        # were passed on is not something the model can do: the client gets the error instead of the entries
+        if rec['res'] != 0 and rec['ents']: oe = '(OErrno %d)' % rec['res']
         return '(OReaddir %s %s)' % (coq_bool(rec['plus']), ents), oe
     if o == 'destroy':
         return '(ODestroy %s)' % coq_target(root_host, fx), 'OUnit'
